@@ -66,7 +66,7 @@ class Harness:
         return v
 
     def assume(self, c, text=None):
-        self.assumptions.append((text or str(c), c))
+        self.assumptions.append((text or str(c)[:200], c))
         self.eng.solver.add(c)
 
     def struct(self, ty, **fields):
